@@ -709,12 +709,20 @@ class Parser:
                     # GH#287 P3: Handle nested block key (e.g., LOSS_PROFILE:)
                     # Parse children as a nested dict to preserve parent-child association
                     self.advance()  # Consume BLOCK (:)
+                    self.skip_whitespace(skip_comments=False)
+                    # GH#297: comments before an indented nested child are consumed with the
+                    # block; when no nested child follows (the next line is not indented deeper
+                    # than this key) they belong to what comes after, and the block is empty
+                    nested_pos = self.pos
                     self.skip_whitespace()
+                    has_nested_children = self.current().type == TokenType.INDENT and self.current().value > indent_level
+                    if not has_nested_children:
+                        self.pos = nested_pos
 
                     nested_meta: dict[str, Any] = {}
                     # PR#307 Finding 1: Track duplicate keys within nested blocks
                     nested_key_positions: dict[str, list[int]] = {}
-                    if self.current().type == TokenType.INDENT:
+                    if has_nested_children:
                         nested_indent = self.current().value
                         self.advance()
                         nested_has_indented = True
